@@ -35,7 +35,7 @@ def faults_txt(n):
 def schema(ncols, namelen, groups, faults=1, timeout=900):
     return E2('schema-build/c%d-n%d%s%s' % (ncols, namelen, '-groups' if groups else '', '/2faults' if faults == 2 else ''), H,
               defines=['-DVQ_SCEN=1', '-DVQ_WCOLS=%d' % ncols, '-DVQ_NAMELEN=%d' % namelen, '-DVQ_FAULTS=%d' % faults] + (['-DVQ_GROUPS'] if groups else []),
-              all_lib=True, timeout=timeout, stubs=STUBS, stop_distinct=0, expect_paths_min=5,
+              all_lib=True, timeout=timeout, stubs=STUBS, stop_distinct=0, leaks=True, expect_paths_min=5,
               bounds='schema_create%s + %d add_column (names of %d characters, INT32/INT64/BYTE_ARRAY+STRING, REQUIRED/OPTIONAL; element arrays grow beyond the initial capacity of 64 when > 63 elements); %s; '
                      'a build that reports success is checked against the intended schema (names, lookup, types, logical types); %s' % (' + 2 add_group' if groups else '', ncols, namelen, faults_txt(faults), OUTSIDE))
 
@@ -44,7 +44,7 @@ def write(specs, rows, nrg, batch, flavour, codec, api=0, policy=0, faults=1, ti
     n = specs.count(',') + 1
     return E2('write/%s/%s-f%d/%s/%s%s%s' % (specs.replace(',', '+'), nm_layout(rows, nrg, batch), flavour, codec, 'file' if api else 'path', '/abort-on-error' if policy else '', '/2faults' if faults == 2 else ''), H,
               defines=['-DVQ_SCEN=2', '-DVQ_FILEAPI=%d' % api, '-DVQ_POLICY=%d' % policy, '-DVQ_FAULTS=%d' % faults] + tdefs(specs, rows, nrg, batch, flavour, codec),
-              all_lib=True, timeout=timeout, stubs=STUBS, stop_distinct=0, expect_paths_min=20 * n, max_paths=400000,
+              all_lib=True, timeout=timeout, stubs=STUBS, stop_distinct=0, leaks=True, expect_paths_min=20 * n, max_paths=400000,
               bounds='write of concrete tables {%s} (null pattern %d), %s, %s, writer on a %s; caller %s; %s over the whole history (schema build, create, write_batch, new_row_group, close); '
                      'an all-OK result is compared byte-for-byte with the fault-free file; leak check; %s' % (
                          specs, flavour & 7, txt_layout(rows, nrg, batch), codec, 'FILE*' if api else 'path', 'aborts at the first failing call' if policy else 'continues after failures and closes', faults_txt(faults), OUTSIDE))
@@ -54,7 +54,7 @@ def read(specs, rows, nrg, batch, flavour, codec, om, chunk=24, skip=0, faults=1
     n = specs.count(',') + 1
     return E2('read/%s/%s/%s-f%d/%s/chunk%d-skip%d%s' % (OPEN[om], specs.replace(',', '+'), nm_layout(rows, nrg, batch), flavour, codec, chunk, skip, '/2faults' if faults == 2 else ''), H,
               defines=['-DVQ_SCEN=3', '-DVQ_OPEN=%d' % om, '-DVQ_CHUNK=%d' % chunk, '-DVQ_SKIP=%d' % skip, '-DVQ_FAULTS=%d' % faults] + tdefs(specs, rows, nrg, batch, flavour, codec),
-              all_lib=True, timeout=timeout, stubs=STUBS, stop_distinct=0, expect_paths_min=4 * n, max_paths=400000,
+              all_lib=True, timeout=timeout, stubs=STUBS, stop_distinct=0, leaks=True, expect_paths_min=4 * n, max_paths=400000,
               bounds='tables {%s} (null pattern %d), %s, %s, opened via %s: open, schema accessors, row_group_metadata, column_statistics, can_zero_copy, filter_row_groups / row_group_matches, then every column chunk '
                      'through get_column + %sread_batch of %d rows per call; %s; every result delivered by a call that reports success is compared with the fault-free result; leak check; %s' % (
                          specs, flavour & 7, txt_layout(rows, nrg, batch), codec, OPEN[om], ('carquet_column_skip(%d) + ' % skip) if skip else '', chunk, faults_txt(faults), OUTSIDE))
@@ -64,7 +64,7 @@ def batch(specs, rows, nrg, batch_, flavour, codec, om, bs=3, proj=0, faults=1, 
     n = specs.count(',') + 1
     return E2('batch/%s/%s/%s-f%d/%s/bs%d-proj%d%s' % (OPEN[om], specs.replace(',', '+'), nm_layout(rows, nrg, batch_), flavour, codec, bs, proj, '/2faults' if faults == 2 else ''), H,
               defines=['-DVQ_SCEN=4', '-DVQ_OPEN=%d' % om, '-DVQ_BS=%d' % bs, '-DVQ_PROJ=%d' % proj, '-DVQ_FAULTS=%d' % faults] + tdefs(specs, rows, nrg, batch_, flavour, codec),
-              all_lib=True, timeout=timeout, stubs=STUBS, stop_distinct=0, expect_paths_min=8 * n, max_paths=400000,
+              all_lib=True, timeout=timeout, stubs=STUBS, stop_distinct=0, leaks=True, expect_paths_min=8 * n, max_paths=400000,
               bounds='tables {%s} (null pattern %d), %s, %s, opened via %s: batch reader with batch_size %d, %s, num_threads 1; %s from open to the last batch; the rows delivered by batches with status OK '
                      '(per column: null flags and values, as one stream over all batches; all columns of a batch aligned) are compared with the fault-free rows; leak check; %s' % (
                          specs, flavour & 7, txt_layout(rows, nrg, batch_), codec, OPEN[om], bs, ('all columns', 'projection by index (last column, first column)', 'projection by name (last column, first column)')[proj], faults_txt(faults), OUTSIDE))
@@ -73,7 +73,7 @@ def batch(specs, rows, nrg, batch_, flavour, codec, om, bs=3, proj=0, faults=1, 
 def wide_write(ncols, nrgs, window, codec='unc', faults=1, timeout=1800):
     return E2('wide-write/c%d-g%d/window%d/%s%s' % (ncols, nrgs, window, codec, '/2faults' if faults == 2 else ''), H,
               defines=['-DVQ_SCEN=5', '-DVQ_WCOLS=%d' % ncols, '-DVQ_WRGS=%d' % nrgs, '-DVQ_WINDOW=%d' % window, '-DVQ_FAULTS=%d' % faults, '-DCODEC=' + CODECS[codec]],
-              all_lib=True, timeout=timeout, stubs=STUBS, stop_distinct=0, expect_paths_min=3, max_steps=30_000_000,
+              all_lib=True, timeout=timeout, stubs=STUBS, stop_distinct=0, leaks=True, expect_paths_min=3, max_steps=30_000_000,
               bounds='%d columns (INT32/INT64, every 4th OPTIONAL) x %d row groups of one row, %s: the writer\'s metadata arena outgrows its first 64 KiB block; %s, but ONLY among the allocations made in %s '
                      '(the rest of the history runs fault-free); all-OK result compared byte-for-byte with the fault-free file; leak check; %s' % (
                          ncols, nrgs, codec, faults_txt(faults), {1: 'carquet_writer_close', 2: 'the last carquet_writer_new_row_group and carquet_writer_close'}[window], OUTSIDE))
@@ -82,7 +82,7 @@ def wide_write(ncols, nrgs, window, codec='unc', faults=1, timeout=1800):
 def wide_read(ncols, nrgs, om, faults=1, timeout=1800):
     return E2('wide-read/%s/c%d-g%d%s' % (OPEN[om], ncols, nrgs, '/2faults' if faults == 2 else ''), H,
               defines=['-DVQ_SCEN=6', '-DVQ_WCOLS=%d' % ncols, '-DVQ_WRGS=%d' % nrgs, '-DVQ_OPEN=%d' % om, '-DVQ_FAULTS=%d' % faults],
-              all_lib=True, timeout=timeout, stubs=STUBS, stop_distinct=0, expect_paths_min=3, max_steps=30_000_000,
+              all_lib=True, timeout=timeout, stubs=STUBS, stop_distinct=0, leaks=True, expect_paths_min=3, max_steps=30_000_000,
               bounds='file of %d columns x %d row groups of one row (footer metadata outgrows the reader\'s first 64 KiB arena block), opened via %s; %s among open, counts, lookup by name, column_statistics and '
                      'get_column + read_batch on 6 columns of the first and last row group; results compared with the written table; leak check; %s' % (ncols, nrgs, OPEN[om], faults_txt(faults), OUTSIDE))
 
